@@ -229,6 +229,56 @@ pub fn fam_gemm(k: &Knobs) -> Vec<GCase> {
     out
 }
 
+/// numpy broadcast of two batch shapes (None if incompatible)
+fn bcast(a: &[u64], b: &[u64]) -> Option<Vec<u64>> {
+    let r = a.len().max(b.len());
+    let mut out = vec![];
+    for i in 0..r {
+        let x = if i + a.len() >= r { a[i + a.len() - r] } else { 1 };
+        let y = if i + b.len() >= r { b[i + b.len() - r] } else { 1 };
+        if x != y && x != 1 && y != 1 {
+            return None;
+        }
+        out.push(x.max(y));
+    }
+    Some(out)
+}
+
+/// Gemm / Matmul with batch dimensions of rank 0..=2 on both sides in every broadcast-compatible combination
+/// (a size-1 batch dimension before, after and between larger ones; missing leading dimensions), matrix part
+/// n=2, k=3, m=2 so that a transposition or batch mix-up cannot go unnoticed. Ranks 4 x 2..4 are reached in
+/// both tiers (the plain shape sweep stops at rank 3 in the quick tier).
+pub fn fam_batch_products(_k: &Knobs) -> Vec<GCase> {
+    let batches: Vec<Vec<u64>> =
+        vec![vec![], vec![1], vec![2], vec![3], vec![1, 1], vec![1, 2], vec![2, 1], vec![1, 3], vec![3, 1], vec![2, 3], vec![3, 2]];
+    let (n, kk, m) = (2u64, 3u64, 2u64);
+    let mut out = vec![];
+    for ba in batches.iter() {
+        for bb in batches.iter() {
+            if ba.len().max(bb.len()) < 2 || bcast(ba, bb).is_none() {
+                continue; // ranks <= 3 are covered by the plain sweeps
+            }
+            for (ta, tb) in [(false, false), (false, true), (true, false), (true, true)] {
+                let mut a = ba.clone();
+                a.extend(if ta { [kk, n] } else { [n, kk] });
+                let mut b = bb.clone();
+                b.extend(if tb { [m, kk] } else { [kk, m] });
+                for st in STS {
+                    out.push(gc(Op::Gemm(ta, tb), vec![arr_t(&a, st), arr_t(&b, st)], Plan::Gen(IntMode::PairsFew), 0));
+                }
+            }
+            let mut a = ba.clone();
+            a.extend([n, kk]);
+            let mut b = bb.clone();
+            b.extend([kk, m]);
+            for st in STS {
+                out.push(gc(Op::Matmul, vec![arr_t(&a, st), arr_t(&b, st)], Plan::Gen(IntMode::PairsFew), 0));
+            }
+        }
+    }
+    out
+}
+
 pub fn fam_sum(k: &Knobs) -> Vec<GCase> {
     let mut out = vec![];
     for s in shapes(1, k.rmax) {
